@@ -5,6 +5,7 @@ package main
 
 import (
 	"bufio"
+	"crypto/tls"
 	"fmt"
 	"net"
 	"os"
@@ -16,6 +17,7 @@ import (
 )
 
 type Daemon struct {
+	Env                        []string // extra environment
 	Bin, ID, Dir, Sock, Config string
 	Cmd                        *exec.Cmd
 	runs                       int
@@ -42,6 +44,9 @@ func (d *Daemon) Start() error {
 	}
 	cmd := exec.Command(d.Bin, "--config", cfg)
 	cmd.Stdout, cmd.Stderr = logf, logf
+	if len(d.Env) > 0 {
+		cmd.Env = append(os.Environ(), d.Env...)
+	}
 	cmd.SysProcAttr = &syscall.SysProcAttr{Setpgid: true}
 	if err := cmd.Start(); err != nil {
 		logf.Close()
@@ -139,6 +144,11 @@ func dialNet(network, addr string) (*Sess, error) {
 	if err != nil {
 		return nil, err
 	}
+	return sessOn(c)
+}
+
+// sessOn reads the greeting on an established connection
+func sessOn(c net.Conn) (*Sess, error) {
 	s := &Sess{c: c, r: bufio.NewReaderSize(c, 1<<16)}
 	g, err := s.line(5 * time.Second)
 	if err != nil {
@@ -205,6 +215,8 @@ func (s *Sess) closeWrite() {
 	case *net.UnixConn:
 		_ = c.CloseWrite()
 	case *net.TCPConn:
+		_ = c.CloseWrite()
+	case *tls.Conn:
 		_ = c.CloseWrite()
 	}
 }
